@@ -1,5 +1,6 @@
 import EdsModel
 import EdsSpec.C18
+import EdsProofs.SettingCtl
 /-
   C18 — At most one valid ExtendedDaemonsetSetting applies to a node.
 -/
@@ -43,5 +44,311 @@ theorem C18_only_valid_used (edsName : String) (settings : List Setting) (n : No
         simp only [bne_iff_ne, ne_eq, Decidable.not_not] at hst
         exact ⟨hst, this.1, hmatch, this.2⟩
       · exact ih h (fun y hy => hsub y (List.mem_cons_of_mem x hy))
+
+/-! ### Mutual exclusion -/
+
+/-- **Mutual exclusion.** In a namespace whose settings have pairwise distinct names, reconcile
+every setting against the same snapshot (`nodes`, `all`). Two settings that both come out `valid`
+and whose selectors both match some node `n` of the snapshot have the same name.
+
+(The hypothesis "each setting has a reference" is not needed: a setting without a reference is
+never `valid`, `C18_missing_reference_error`.)
+
+Why: both settings have a usable selector (they match), so — names being unique — both runs scan the
+very same sorted list of usable settings; on node `n` the one standing later in that list meets the
+earlier one in `nodesAlreadySelected` and reports a conflict. -/
+theorem C18_mutual_exclusion (nodes : List Node) (all : List Setting)
+    (hnd : (all.map (·.name)).Nodup)
+    (n : Node) (hn : n ∈ nodes) (s t : Setting) (hs : s ∈ all) (ht : t ∈ all)
+    (hvs : (settingReconcile s nodes all).1 = "valid")
+    (hvt : (settingReconcile t nodes all).1 = "valid")
+    (hms : settingMatches s n.labels = some true)
+    (hmt : settingMatches t n.labels = some true) :
+    s.name = t.name := by
+  apply Decidable.byContradiction
+  intro hne
+  have hcs := ((settingReconcile_valid_iff s nodes all).mp hvs).2
+  have hct := ((settingReconcile_valid_iff t nodes all).mp hvt).2
+  rw [searchConflict_eq, usableFor_eq_of_good hnd hs (badSelector_false_of_matches hms),
+    searchConflict_go_none_iff] at hcs
+  rw [searchConflict_eq, usableFor_eq_of_good hnd ht (badSelector_false_of_matches hmt),
+    searchConflict_go_none_iff] at hct
+  have hmem : ∀ x : Setting, x ∈ all → x.badSelector = false →
+      x ∈ sortSettings (all.filter (fun s => !s.badSelector)) := fun x hx hg =>
+    mem_sortSettings.mpr (List.mem_filter.mpr ⟨hx, by simp [hg]⟩)
+  exact scan_not_both_none n.labels
+    (hmem s hs (badSelector_false_of_matches hms)) (hmem t ht (badSelector_false_of_matches hmt))
+    hne hms hmt none ⟨hcs n hn, hct n hn⟩
+
+/-- … hence they are the same setting. -/
+theorem C18_mutual_exclusion_eq (nodes : List Node) (all : List Setting)
+    (hnd : (all.map (·.name)).Nodup)
+    (n : Node) (hn : n ∈ nodes) (s t : Setting) (hs : s ∈ all) (ht : t ∈ all)
+    (hvs : (settingReconcile s nodes all).1 = "valid")
+    (hvt : (settingReconcile t nodes all).1 = "valid")
+    (hms : settingMatches s n.labels = some true)
+    (hmt : settingMatches t n.labels = some true) :
+    s = t :=
+  eq_of_name_eq_of_nodup hnd hs ht (C18_mutual_exclusion nodes all hnd n hn s t hs ht hvs hvt hms hmt)
+
+/-- The same statement through the decidable specification predicate `Spec.C18.mutualExclusion`
+(the one the differential-test stream evaluates on real controller output): for every node at
+most one setting is both valid and matching. -/
+theorem C18_mutual_exclusion_spec (nodes : List Node) (all : List Setting)
+    (hnd : (all.map (·.name)).Nodup) :
+    mutualExclusion all nodes (fun s => decide ((settingReconcile s nodes all).1 = "valid")) = true := by
+  unfold mutualExclusion
+  rw [List.all_eq_true]
+  intro n hn
+  rw [decide_eq_true_eq]
+  have hall : all.Nodup := by
+    have := List.pairwise_map.mp hnd
+    exact this.imp (fun h heq => h (by rw [heq]))
+  apply length_le_one_of_all_eq (List.Nodup.sublist List.filter_sublist hall)
+  have key : ∀ x : Setting, x ∈ all.filter (fun s =>
+      decide ((settingReconcile s nodes all).1 = "valid") && (settingMatches s n.labels).getD false) →
+      x ∈ all ∧ (settingReconcile x nodes all).1 = "valid" ∧ settingMatches x n.labels = some true := by
+    intro x hx
+    rw [List.mem_filter, Bool.and_eq_true, decide_eq_true_eq] at hx
+    refine ⟨hx.1, hx.2.1, ?_⟩
+    cases hm : settingMatches x n.labels with
+    | none => rw [hm] at hx; simp at hx
+    | some b => rw [hm] at hx; simp at hx; rw [hx.2.2]
+  intro a ha b hb
+  obtain ⟨ha1, ha2, ha3⟩ := key a ha
+  obtain ⟨hb1, hb2, hb3⟩ := key b hb
+  exact C18_mutual_exclusion_eq nodes all hnd n hn a b ha1 hb1 ha2 hb2 ha3 hb3
+
+/-! ### Order independence -/
+
+/-- **The verdict does not depend on the order in which the API server lists the settings**: with
+unique names, reconciling against a permutation of the list yields the same status *and* the same
+error message. (`sortSettings` is an insertion sort by a total preorder whose only ties are
+settings with the same creation time and name, so its output is a function of the multiset.) -/
+theorem C18_order_independent (inst : Setting) (nodes : List Node) (all all' : List Setting)
+    (hnd : (all.map (·.name)).Nodup) (hp : all'.Perm all) :
+    settingReconcile inst nodes all' = settingReconcile inst nodes all := by
+  have hsc : searchConflict inst nodes all' = searchConflict inst nodes all := by
+    rw [searchConflict_eq, searchConflict_eq]
+    congr 1
+    apply sortSettings_eq_of_perm (hp.filter _)
+    intro a ha b hb hab
+    have ha' : a ∈ all := hp.mem_iff.mp (mem_usableFor.mp ha).1
+    have hb' : b ∈ all := hp.mem_iff.mp (mem_usableFor.mp hb).1
+    exact eq_of_name_eq_of_nodup hnd ha' hb' hab
+  unfold settingReconcile
+  rw [hsc]
+
+/-- Remark: unique names are necessary for the full statement. Two objects with the same name and
+creation time are a tie for the sort, which keeps them in list order; here the instance `a` and
+its unusable double `b` (both named `s`) come after the newer `c`, and the *error message* depends on
+which of the two the scan meets first (conflict with `c` / selector error). -/
+example :
+    let c : Setting := ⟨"c", "ns", 1, some "eds", ⟨[], []⟩, false, [], "", ""⟩
+    let a : Setting := ⟨"s", "ns", 0, some "eds", ⟨[], []⟩, false, [], "", ""⟩
+    let b : Setting := { a with badSelector := true }
+    let n : Node := ⟨"n", [], [], [], ""⟩
+    settingReconcile a [n] [c, a, b] = ("error", "conflict with another ExtendedDaemonsetSetting: ") ∧
+    settingReconcile a [n] [c, b, a] = ("error", "conflict with another ExtendedDaemonsetSetting: c") := by
+  decide
+
+/-! ### Unusable selector -/
+
+/-- **A setting with an unusable selector is in error** as soon as the cluster has a node: the
+scan of the first node meets the setting itself (it is never filtered out of its own run) and
+stops there with a selector error — unless it stopped earlier with a conflict, which is an error
+too. (No hypothesis on the reference is needed: a missing reference is an error as well.) -/
+theorem C18_bad_selector_error (inst : Setting) (nodes : List Node) (all : List Setting)
+    (hbad : inst.badSelector = true) (hi : inst ∈ all) (hn : nodes ≠ []) :
+    (settingReconcile inst nodes all).1 = "error" := by
+  apply settingReconcile_error_of_conflict
+  rw [searchConflict_eq]
+  apply searchConflict_go_ne_none hn
+  intro n _
+  apply scan_ne_none_of_bad inst.name n.labels (x := inst)
+  · exact mem_sortSettings.mpr (mem_usableFor.mpr ⟨hi, fun _ => rfl⟩)
+  · exact (settingMatches_eq_none_iff inst n.labels).mpr hbad
+
+/-- Remark: the `nodes ≠ []` hypothesis is necessary. `searchPossibleConflict` only converts the
+selectors while it walks the nodes, so in a cluster without nodes a setting with an unusable
+selector is reported `valid`. -/
+example :
+    let a : Setting := ⟨"s", "ns", 0, some "eds", ⟨[], []⟩, true, [], "", ""⟩
+    settingReconcile a [] [a] = ("valid", "") := by decide
+
+/-- Remark: so is `inst ∈ all` (the informer cache not yet containing the object being
+reconciled): the instance is then never met by the scan. -/
+example :
+    let a : Setting := ⟨"s", "ns", 0, some "eds", ⟨[], []⟩, true, [], "", ""⟩
+    let n : Node := ⟨"n", [], [], [], ""⟩
+    settingReconcile a [n] [] = ("valid", "") := by decide
+
+/-! ### A well-formed setting that overlaps no other is valid -/
+
+/-- **A well-formed setting overlapping no other setting is valid.** Hypotheses: a non-empty
+reference, a usable selector, unique names in the namespace (with the instance being the object of
+its name: `inst ∈ all`), and no node of the cluster is matched both by the instance and by a
+differently named setting. Other settings may have unusable selectors (they are skipped, F9). -/
+theorem C18_lonely_valid (inst : Setting) (nodes : List Node) (all : List Setting)
+    (r : String) (href : inst.reference = some r) (hr : r ≠ "")
+    (hgood : inst.badSelector = false)
+    (hnd : (all.map (·.name)).Nodup) (hi : inst ∈ all)
+    (hlonely : ∀ n ∈ nodes, ∀ s ∈ all, s.name ≠ inst.name →
+      ¬ (settingMatches inst n.labels = some true ∧ settingMatches s n.labels = some true)) :
+    (settingReconcile inst nodes all).1 = "valid" := by
+  rw [settingReconcile_valid_iff]
+  refine ⟨⟨r, href, hr⟩, ?_⟩
+  rw [searchConflict_eq, searchConflict_go_none_iff]
+  intro n hn
+  -- what the scanned list looks like
+  have hmem : ∀ x, x ∈ sortSettings (usableFor inst all) →
+      x ∈ all ∧ (x.badSelector = true → x.name = inst.name) := fun x hx =>
+    mem_usableFor.mp (mem_sortSettings.mp hx)
+  have hself : ∀ x, x ∈ sortSettings (usableFor inst all) → x.name = inst.name → x = inst :=
+    fun x hx hxn => eq_of_name_eq_of_nodup hnd (hmem x hx).1 hi hxn
+  have husable : ∀ x, x ∈ sortSettings (usableFor inst all) → settingMatches x n.labels ≠ none := by
+    intro x hx hnone
+    have hb := (settingMatches_eq_none_iff x n.labels).mp hnone
+    have := hself x hx ((hmem x hx).2 hb)
+    subst this
+    rw [hgood] at hb
+    cases hb
+  cases hm : settingMatches inst n.labels with
+  | none =>
+    rw [(settingMatches_eq_none_iff inst n.labels).mp hm] at hgood
+    cases hgood
+  | some b =>
+    cases b with
+    | false =>
+      -- the instance does not select this node: nothing named like it matches
+      apply scan_none_of_no_inst_match inst.name n.labels husable
+      intro x hx hxn
+      rw [hself x hx hxn, hm]
+      simp
+    | true =>
+      -- the instance selects this node: nobody else does
+      apply scan_none_of_others_false inst.name n.labels (sorted_usable_nodup inst hnd) husable
+      intro x hx hxn
+      have hnot := hlonely n hn x (hmem x hx).1 hxn
+      cases hx' : settingMatches x n.labels with
+      | none => exact absurd hx' (husable x hx)
+      | some b =>
+        cases b with
+        | false => rfl
+        | true => exact absurd ⟨hm, hx'⟩ hnot
+
+/-- Remark: unique names are necessary in `C18_lonely_valid` — an object listed twice conflicts with
+itself. -/
+example :
+    let a : Setting := ⟨"s", "ns", 0, some "eds", ⟨[], []⟩, false, [], "", ""⟩
+    let n : Node := ⟨"n", [], [], [], ""⟩
+    (settingReconcile a [n] [a, a]).1 = "error" := by decide
+
+/-! ### The hypotheses are satisfiable: two overlapping settings, exactly one valid -/
+
+section Examples
+
+private def exOld : Setting := ⟨"old", "ns", 10, some "eds", ⟨[⟨"pool", "a"⟩], []⟩, false, [], "", ""⟩
+private def exNew : Setting := ⟨"new", "ns", 20, some "eds", ⟨[], []⟩, false, [], "", ""⟩
+private def exBad : Setting := ⟨"bad", "ns", 30, some "eds", ⟨[], []⟩, true, [], "", ""⟩
+private def exElse : Setting := ⟨"else", "ns", 5, some "eds", ⟨[⟨"pool", "b"⟩], []⟩, false, [], "", ""⟩
+private def exNodeA : Node := ⟨"node-a", [⟨"pool", "a"⟩], [], [], ""⟩
+private def exNodeC : Node := ⟨"node-c", [⟨"pool", "c"⟩], [], [], ""⟩
+
+/-- `exOld` (pool=a) and `exNew` (selects everything) overlap on `node-a`: the newest is valid, the
+other reports the conflict. The unusable `exBad` is in error and does not disturb the others (F9).
+`exElse` (pool=b) matches no node, hence overlaps nobody and is valid (`C18_lonely_valid`). The
+result is the same for every listing order (`C18_order_independent`). -/
+example :
+    ([exOld, exNew, exBad, exElse].map (fun s => settingReconcile s [exNodeA, exNodeC] [exOld, exNew, exBad, exElse]))
+      = [("error", "conflict with another ExtendedDaemonsetSetting: new"), ("valid", ""),
+         ("error", "conflict with another ExtendedDaemonsetSetting: "), ("valid", "")] := by decide
+
+example :
+    ([exOld, exNew, exBad, exElse].map (fun s => settingReconcile s [exNodeA, exNodeC] [exElse, exBad, exNew, exOld]))
+      = [("error", "conflict with another ExtendedDaemonsetSetting: new"), ("valid", ""),
+         ("error", "conflict with another ExtendedDaemonsetSetting: "), ("valid", "")] := by decide
+
+example : (([exOld, exNew, exBad, exElse].map (·.name)).Nodup) := by decide
+
+end Examples
+
+/-! ### The choice made for a node -/
+
+/-- **At most one candidate**: when the stored statuses are the reconciled ones (same snapshot),
+two settings of the namespace that are `valid` and match a node of the snapshot are the same
+setting — whatever ExtendedDaemonSet they reference. -/
+theorem C18_unique_choice (nodes : List Node) (all : List Setting)
+    (hnd : (all.map (·.name)).Nodup)
+    (hst : ∀ s ∈ all, s.status = (settingReconcile s nodes all).1)
+    (n : Node) (hn : n ∈ nodes) (s t : Setting) (hs : s ∈ all) (ht : t ∈ all)
+    (hvs : s.status = "valid") (hvt : t.status = "valid")
+    (hms : settingMatches s n.labels = some true)
+    (hmt : settingMatches t n.labels = some true) :
+    s = t :=
+  C18_mutual_exclusion_eq nodes all hnd n hn s t hs ht
+    (hst s hs ▸ hvs) (hst t ht ▸ hvt) hms hmt
+
+/-- **Every node is affected by at most one setting, independently of the listing order**: under
+the hypotheses of `C18_unique_choice`, `getNodeList`'s choice for a node of the snapshot never fails
+on a selector and is the same for every permutation of the settings list. -/
+theorem C18_choice_order_independent (nodes : List Node) (all all' : List Setting)
+    (hnd : (all.map (·.name)).Nodup)
+    (hst : ∀ s ∈ all, s.status = (settingReconcile s nodes all).1)
+    (hp : all'.Perm all) (edsName : String) (n : Node) (hn : n ∈ nodes) :
+    chooseSetting edsName all' n = chooseSetting edsName all n ∧ chooseSetting edsName all n ≠ none := by
+  -- facts about any listing `l` of the same settings
+  have hgood : ∀ l : List Setting, l.Perm all →
+      ∀ x ∈ l.filter (fun s => s.reference == some edsName), x.status = "valid" →
+        settingMatches x n.labels ≠ none := by
+    intro l hl x hx hv hnone
+    have hxa : x ∈ all := hl.mem_iff.mp (List.mem_filter.mp hx).1
+    have herr := C18_bad_selector_error x nodes all
+      ((settingMatches_eq_none_iff x n.labels).mp hnone) hxa (List.ne_nil_of_mem hn)
+    rw [← hst x hxa, hv] at herr
+    exact absurd herr (by decide)
+  have hcomplete : ∀ l : List Setting, l.Perm all → ∀ s : Setting,
+      chooseSetting edsName all n = some (some s) → chooseSetting edsName l n = some (some s) := by
+    intro l hl s hc
+    obtain ⟨hv, href, hm, hsa⟩ := C18_only_valid_used edsName all n s hc
+    show chooseSetting.go n (l.filter (fun s => s.reference == some edsName)) = some (some s)
+    apply chooseSetting_go_eq_of_unique n _ hv hm (hgood l hl)
+    · intro x hx hxv hxm
+      exact C18_unique_choice nodes all hnd hst n hn x s
+        (hl.mem_iff.mp (List.mem_filter.mp hx).1) hsa hxv hv hxm hm
+    · exact List.mem_filter.mpr ⟨hl.mem_iff.mpr hsa, by simp [href]⟩
+  have hne : ∀ l : List Setting, l.Perm all → chooseSetting edsName l n ≠ none := fun l hl =>
+    chooseSetting_go_ne_none n (hgood l hl)
+  refine ⟨?_, hne all (List.Perm.refl _)⟩
+  cases h : chooseSetting edsName all n with
+  | none => exact absurd h (hne all (List.Perm.refl _))
+  | some o =>
+    cases o with
+    | some s => exact hcomplete all' hp s h
+    | none =>
+      cases h' : chooseSetting edsName all' n with
+      | none => exact absurd h' (hne all' hp)
+      | some o' =>
+        cases o' with
+        | none => rfl
+        | some s' =>
+          -- a choice in the permuted list would also be the choice in the original one
+          obtain ⟨hv, href, hm, hsa'⟩ := C18_only_valid_used edsName all' n s' h'
+          have hsa : s' ∈ all := hp.mem_iff.mp hsa'
+          have : chooseSetting edsName all n = some (some s') := by
+            show chooseSetting.go n (all.filter (fun s => s.reference == some edsName)) = some (some s')
+            apply chooseSetting_go_eq_of_unique n _ hv hm (hgood all (List.Perm.refl _))
+            · intro x hx hxv hxm
+              exact C18_unique_choice nodes all hnd hst n hn x s' (List.mem_filter.mp hx).1 hsa hxv hv hxm hm
+            · exact List.mem_filter.mpr ⟨hsa, by simp [href]⟩
+          rw [h] at this
+          cases this
+
+/-- Remark ("at most one" by type): the choice is a single optional setting. -/
+theorem C18_node_gets_at_most_one (edsName : String) (settings : List Setting) (n : Node) :
+    chooseSetting edsName settings n = none ∨ ∃ o : Option Setting, chooseSetting edsName settings n = some o := by
+  cases chooseSetting edsName settings n with
+  | none => exact Or.inl rfl
+  | some o => exact Or.inr ⟨o, rfl⟩
 
 end Eds
